@@ -1313,6 +1313,44 @@ fn gen_utf8(r: &mut Rng) -> String {
     s
 }
 
+/// literals the lexer has to take apart character by character: strings with valid and invalid escapes in front of
+/// characters of every UTF-8 width, both kinds of quotes, bit-string literals with stray characters, numerals with
+/// odd digits, signs, radix prefixes and separators; terminated or not, alone or in the middle of a program
+fn gen_literal_fuzz(r: &mut Rng) -> String {
+    let wide = |r: &mut Rng| -> char { *r.pick(&['a', 'n', 't', 'r', '"', '\\', '0', 'x', 'u', ' ', '\n', 'é', 'ß', '語', '€', '😀', '\u{10ffff}', '\u{a0}', '”', '“', '|', '\u{0}']) };
+    let mut parts: Vec<String> = Vec::new();
+    for _ in 0..(r.below(4) + 1) {
+        let lit = match r.below(6) {
+            0 | 1 => {
+                let (open, close) = *r.pick(&[("\"", "\""), ("“", "”"), ("\"", "”"), ("“", "\"")]);
+                let mut body = String::new();
+                for _ in 0..r.below(8) {
+                    if r.chance(45) { body.push('\\'); }
+                    body.push(wide(r));
+                }
+                if r.chance(20) { body.push('\\'); }
+                format!("{}{}{}", open, body, if r.chance(80) { close } else { "" })
+            }
+            2 => {
+                let mut body = String::new();
+                for _ in 0..r.below(10) { body.push(*r.pick(&['0', '1', 'f', 'F', 'x', '.', ' ', '_', 'g', 'é', '😀', '\\', '"', '-', '\n'])); }
+                format!("|{}{}", body, if r.chance(80) { "|" } else { "" })
+            }
+            3 => {
+                let mut body = String::new();
+                body.push_str(*r.pick(&["", "-", "+", "--", "0x", "-0x", "0b", "0o", "0x-", "1e", "."]));
+                for _ in 0..(r.below(12) + 1) { body.push(*r.pick(&['0', '1', '7', '9', 'a', 'f', 'z', '_', '.', 'e', '-', '+', 'é', 'x'])); }
+                body
+            }
+            4 => format!("\\{}", wide(r)),
+            _ => { let c = wide(r); format!("\"a\\{}b\" print", c) }
+        };
+        parts.push(lit);
+        if r.chance(40) { parts.push((*r.pick(&["dup", "drop", "print", "length", ": f", ";", "[", "]", "let x", "1 +"])).to_string()); }
+    }
+    parts.join(if r.chance(85) { " " } else { "" })
+}
+
 /// one very long token (number, word, string, bit-string, comment), terminated or not
 fn gen_long_token(r: &mut Rng, big: bool) -> String {
     let n = if big { *r.pick(&[70_000usize, 300_000]) } else { *r.pick(&[100usize, 1000, 5000]) };
@@ -1567,7 +1605,8 @@ fn plan_texts(ctx: &mut Ctx, words: &[String], n: usize, plan: &mut Plan) {
             }
             60..=67 => (gen_enum(&mut r), "enum"),
             68..=77 => (gen_meta(&mut r, &soup_words), "meta"),
-            78..=80 => (gen_utf8(&mut r), "utf8"),
+            78 => (gen_utf8(&mut r), "utf8"),
+            79..=80 => (gen_literal_fuzz(&mut r), "literal-fuzz"),
             81 => {
                 let big = if ctx.thorough { r.chance(5) } else { i % 5 == 0 };
                 (gen_long_token(&mut r, big), "long-token")
